@@ -102,13 +102,15 @@ TDialEnd ==
 TSlotRel == IsEvent("td.slot.rel") /\ ReleaseSlot(G)
 
 \* the call returned (E.a: 0 conn, 1 wrapped ErrDialTimeout, 2 other wrapped upstream error,
-\* 3 resolver error); E.b = 1 iff the upstream named by the error is the address tried last
+\* 3 resolver error); E.b = 1 iff the upstream named by the error is the address tried last;
+\* E.latems = how long after the dial's own deadline (call start + timeout) it returned
 TReturn ==
   /\ IsEvent("h.return")
   /\ LET r == CASE E.a = 0 -> "ok" [] E.a = 1 -> "timeout" [] E.a = 2 -> "failed" [] E.a = 3 -> "resolveerr" IN
-     IF pc[G] = "done" THEN result[G] = "resolveerr" /\ r = "resolveerr" /\ UNCHANGED vars
-     ELSE /\ Advance(G) /\ pc'[G] = "done" /\ result'[G] = r
-          /\ (r \in {"timeout", "failed"} => E.b = 1)
+     /\ E.latems <= TraceLog[1].slackms       \* the deadline is fixed when the call starts: the return is on time
+     /\ IF pc[G] = "done" THEN result[G] = "resolveerr" /\ r = "resolveerr" /\ UNCHANGED vars
+        ELSE /\ Advance(G) /\ pc'[G] = "done" /\ result'[G] = r
+             /\ (r \in {"timeout", "failed"} => E.b = 1)
 
 TraceNext == \/ TReset \/ TAddrs \/ TResolveErr \/ TTry \/ TExpired \/ TSlotAcq \/ TSlotTimeout
              \/ TDialBegin \/ TDialEnd \/ TSlotRel \/ TReturn
